@@ -389,7 +389,140 @@ fn run_cfi_q(callee: &str, lines: &str) -> String {
     format!("Q {}", out.join(","))
 }
 
+/// A nk {susp outc}*nk nt {tree}*nt ns {t}*ns : ADAPTIVE walks on one real Symbolizer.  tree = d<v> (done, value v) |
+/// k<key> <ok subtree> <err subtree> (fill_symbol on module <key>; continue with the first subtree if it returned Ok).
+/// The supplier answers key k after `susp` Pending polls with outc (0 Ok, 1 NotFound, 2 MissingDebugFileOrId, 3 LoadError,
+/// 4 ParseError).  The tasks' futures are polled in schedule order (finished / unknown ids skipped), then round-robin until
+/// all are finished.  answer: results ; per-task answer logs key:ok ; supplier call log ; stats per key ; requested/processed
+enum Tree {
+    Done(u64),
+    Ask(usize, Box<Tree>, Box<Tree>),
+}
+fn parse_tree<'a>(it: &mut impl Iterator<Item = &'a str>) -> Tree {
+    let t = it.next().expect("tree token");
+    let v = num(&t[1..]);
+    if t.starts_with('d') {
+        Tree::Done(v)
+    } else {
+        let ok = parse_tree(it);
+        let err = parse_tree(it);
+        Tree::Ask(v as usize, Box::new(ok), Box::new(err))
+    }
+}
+struct Scripted {
+    scripts: Vec<(u32, u8)>,
+    log: Arc<Mutex<Vec<usize>>>,
+}
+fn key_of_code_file(cf: &str) -> Option<usize> {
+    cf.strip_prefix("/m/k")?.strip_suffix(".so")?.parse().ok()
+}
+#[async_trait]
+impl SymbolSupplier for Scripted {
+    async fn locate_symbols(&self, module: &(dyn breakpad_symbols::Module + Sync)) -> Result<LocateSymbolsResult, SymbolError> {
+        let k = key_of_code_file(&module.code_file()).expect("known module");
+        self.log.lock().unwrap().push(k);
+        let (susp, outc) = self.scripts[k];
+        Delay { mode: Mode::Count, left: susp, tokens: Arc::new(Mutex::new(Tokens::default())), id: None }.await;
+        match outc {
+            0 => Ok(LocateSymbolsResult {
+                symbols: breakpad_symbols::SymbolFile::from_bytes(b"MODULE Linux x86_64 000000000000000000000000000000000 mock\nFUNC 1000 10 0 f\n")?,
+                extra_debug_info: None,
+            }),
+            1 => Err(SymbolError::NotFound),
+            2 => Err(SymbolError::MissingDebugFileOrId),
+            3 => Err(SymbolError::LoadError(std::io::Error::new(std::io::ErrorKind::Other, "mock"))),
+            _ => match breakpad_symbols::SymbolFile::from_bytes(b"this is not a symbol file\n") {
+                Err(e) => Err(e),
+                Ok(_) => Err(SymbolError::ParseError("mock", 1)),
+            },
+        }
+    }
+    async fn locate_file(&self, _module: &(dyn breakpad_symbols::Module + Sync), _kind: FileKind) -> Result<PathBuf, FileError> {
+        Err(FileError::NotFound)
+    }
+}
+async fn adaptive_walk(tree: &Tree, sym: &breakpad_symbols::Symbolizer, mods: &[breakpad_symbols::SimpleModule], log: &Mutex<Vec<(usize, bool)>>) -> u64 {
+    let mut node = tree;
+    loop {
+        match node {
+            Tree::Done(v) => return *v,
+            Tree::Ask(k, ok, err) => {
+                let mut frame = breakpad_symbols::SimpleFrame::with_instruction(0x1005);
+                let r = sym.fill_symbol(&mods[*k], &mut frame).await;
+                log.lock().unwrap().push((*k, r.is_ok()));
+                node = if r.is_ok() { ok } else { err };
+            }
+        }
+    }
+}
+fn run_adaptive(rest: &str) -> String {
+    let mut it = rest.split_ascii_whitespace();
+    let nk = num(it.next().expect("nk")) as usize;
+    let scripts: Vec<(u32, u8)> = (0..nk).map(|_| (num(it.next().expect("susp")) as u32, num(it.next().expect("outc")) as u8)).collect();
+    let nt = num(it.next().expect("nt")) as usize;
+    let trees: Vec<Tree> = (0..nt).map(|_| parse_tree(&mut it)).collect();
+    let ns = num(it.next().expect("ns")) as usize;
+    let sched: Vec<usize> = (0..ns).map(|_| num(it.next().expect("t")) as usize).collect();
+    let mods: Vec<breakpad_symbols::SimpleModule> = (0..nk)
+        .map(|k| breakpad_symbols::SimpleModule { code_file: Some(format!("/m/k{}.so", k)), ..Default::default() })
+        .collect();
+    let calls = Arc::new(Mutex::new(Vec::new()));
+    let sym = breakpad_symbols::Symbolizer::new(Scripted { scripts, log: calls.clone() });
+    let logs: Vec<Mutex<Vec<(usize, bool)>>> = (0..nt).map(|_| Mutex::new(Vec::new())).collect();
+    let mut results: Vec<Option<u64>> = vec![None; nt];
+    {
+        let mut futs: Vec<Option<Pin<Box<dyn Future<Output = u64> + '_>>>> =
+            (0..nt).map(|t| Some(Box::pin(adaptive_walk(&trees[t], &sym, &mods, &logs[t])) as Pin<Box<dyn Future<Output = u64> + '_>>)).collect();
+        let waker = Waker::from(Arc::new(Noop));
+        let mut cx = Context::from_waker(&waker);
+        macro_rules! poll_task {
+            ($t:expr) => {{
+                let t: usize = $t;
+                if t < nt {
+                    if let Some(f) = futs[t].as_mut() {
+                        if let Poll::Ready(v) = f.as_mut().poll(&mut cx) {
+                            results[t] = Some(v);
+                            futs[t] = None;
+                        }
+                    }
+                }
+            }};
+        }
+        for &t in &sched {
+            poll_task!(t);
+        }
+        let mut rounds = 0;
+        while results.iter().any(|r| r.is_none()) {
+            rounds += 1;
+            if rounds > 200 {
+                break;
+            }
+            for t in 0..nt {
+                poll_task!(t);
+            }
+        }
+    }
+    let join = |v: Vec<String>, sep: &str| if v.is_empty() { "-".to_string() } else { v.join(sep) };
+    let stats = sym.stats();
+    let pend = sym.pending_stats();
+    format!(
+        "A {};{};{};{};{}/{}",
+        join(results.iter().map(|r| r.map(|v| v.to_string()).unwrap_or_else(|| "?".into())).collect(), ","),
+        join(logs.iter().map(|l| join(l.lock().unwrap().iter().map(|(k, ok)| format!("{}:{}", k, *ok as u8)).collect(), ".")).collect(), "|"),
+        join(calls.lock().unwrap().iter().map(|k| k.to_string()).collect(), "."),
+        join((0..nk).map(|k| match stats.get(&format!("k{}.so", k)) {
+            None => "-".to_string(),
+            Some(s) => format!("{}{}", if s.loaded_symbols { "L" } else { "l" }, if s.corrupt_symbols { "C" } else { "c" }),
+        }).collect(), ","),
+        pend.symbols_requested,
+        pend.symbols_processed
+    )
+}
+
 fn run(line: &str) -> String {
+    if let Some(rest) = line.strip_prefix("A ") {
+        return run_adaptive(rest);
+    }
     if let Some(rest) = line.strip_prefix("Q ") {
         let mut it = rest.split_ascii_whitespace();
         return run_cfi_q(it.next().expect("callee"), it.next().expect("rules"));
